@@ -1093,6 +1093,8 @@ class _RecordRun:
         if rejected:
             ctx.fault("rejected_time")
             return self.expect_refused("select(out of range)", lambda: rt.select(time, spy, tolerance=tol, offset=offset), kinds=(ValueError,))
+        if op.get("mode") == "pair" and m.dtype.is_floating_point:
+            self._select_shipped(op, time, tvals, cls, f)
         with ctx.impl("select", self.facts(**f)):
             got = rt.select(time, spy, tolerance=tol, offset=offset)
         ctx.log("select", op["time"], tol, offset, got)
@@ -1167,6 +1169,53 @@ class _RecordRun:
             if a.shape != b.shape or not torch.equal(a, b):
                 ctx.fail("scalar_tensor_disagree", self.facts(op="select", **f),
                          f"select(t={t0}) scalar gave {a.tolist()} tensor gave {b.tolist()}")
+
+    def _select_shipped(self, op, time, tvals, cls, f):
+        """select with a shipped interpolation function returns, element by element, what that same function returns for the
+        bracketing samples (no special-casing of the shipped functions inside select)"""
+        ctx, rt, m = self.ctx, self.rt, self.m
+        name = op["pair"]
+        fi, _fe, kw_i, _kw_e = self._pair(name, op["tc"])
+        tol, offset, form = op["tol"], op["offset"], op["form"]
+        f = dict(f, pair=name, shipped=True)
+        S = m.shape
+        numel = int(np.prod(S))
+        D = 1 if form != "tensorD" else time.shape[-1]
+        want = np.zeros((numel, D), dtype=np.float64)
+        slack = np.zeros((numel, D), dtype=np.float64)      # sensitivity of the shipped function to the rounding of the elapsed time
+        for e in range(numel):
+            idx = np.unravel_index(e, S)
+            for d in range(D):
+                cl = cls[0] if form == "scalar" else cls[e * D + d]
+                if cl[0] == "grid":
+                    want[e, d] = m.read(offset + cl[1])[idx]
+                    continue
+                r = cl[3] / self.dt
+                if abs(r - 0.5) < 1e-4 and r != 0.5 and name == "nearest":
+                    ctx.undecided += 1      # a rounded elapsed time on either side of the half step
+                    return
+                wp, wn = m.read(offset + cl[1])[idx], m.read(offset + cl[2])[idx]
+                dt_ = m.dtype
+                out = fi(torch.tensor(wp, dtype=dt_), torch.tensor(wn, dtype=dt_), torch.tensor(cl[3], dtype=torch.float32), self.dt, **kw_i)
+                want[e, d] = float(out)
+                tt = abs(tvals[0] if form == "scalar" else tvals[e * D + d])
+                slack[e, d] = max(abs(wn - wp) / self.dt, abs(wp) / 0.7, abs(wn) / 0.7) * 1e-6 * (tt + self.dt)
+        with ctx.impl("select(shipped)", self.facts(**f)):
+            got = rt.select(time, fi, tolerance=tol, offset=offset, interp_kwargs=kw_i)
+        ctx.probe("select_shipped_" + name)
+        ctx.judged += 1
+        exp_shape = S if form != "tensorD" else S + (D,)
+        if tuple(got.shape) != exp_shape:
+            ctx.fail("select_shape", self.facts(**f), f"select returned shape {tuple(got.shape)} expected {exp_shape}")
+            return
+        g = to_np(got).reshape(numel, D)
+        bad = np.abs(g - want) > 1e-5 + 1e-5 * np.abs(want) + slack
+        if name in ("previous", "next", "nearest"):
+            bad = g != want
+        if bad.any():
+            e, d = [int(x) for x in np.argwhere(bad)[0]]
+            ctx.fail("shipped_interp_result", self.facts(**f), f"select with interp_{name} at t={tvals[0] if form == 'scalar' else tvals[e * D + d]} returned {g[e, d]}, "
+                     f"the function itself gives {want[e, d]} for the bracketing samples")
 
     def _check_spy_scalar(self, spy, cl, offset, got, f):
         ctx, m = self.ctx, self.m
